@@ -396,6 +396,48 @@ Section MountProofs.
       apply (H k Hin). exists (comps rel'). rewrite <- Hseg. assumption.
   Qed.
 
+  (* Two-path operations: when the operation is handed to a mount, that mount point is the longest component-wise
+     prefix of BOTH paths, each resolved on its own, and each path is handed over as its components below it. *)
+  Theorem mount_two_longest cwd keys p1 p2 k r1 r2 :
+    is_rooted cwd = true -> Forall key_ok keys ->
+    mount_two cwd keys p1 p2 = Some (k, r1, r2) ->
+    find_mount cwd keys p1 = Some (k, r1) /\ find_mount cwd keys p2 = Some (k, r2) /\
+    In k keys /\
+    comps (mount_path cwd p1) = comps k ++ comps r1 /\ comps (mount_path cwd p2) = comps k ++ comps r2 /\
+    Forall normal (comps r1) /\ Forall normal (comps r2) /\
+    (forall k', In k' keys ->
+       is_pre (comps k') (comps (mount_path cwd p1)) \/ is_pre (comps k') (comps (mount_path cwd p2)) ->
+       length (comps k') <= length (comps k)).
+  Proof.
+    intros Hc Hks H. unfold mount_two in H.
+    destruct (find_mount cwd keys p1) as [[k1 q1]|] eqn:E1; [|discriminate].
+    destruct (find_mount cwd keys p2) as [[k2 q2]|] eqn:E2; [|discriminate].
+    destruct (str_eqb k1 k2) eqn:Ek; [|discriminate].
+    apply str_eqb_eq in Ek. subst k2. inversion H; subst k1 q1 q2. clear H.
+    destruct (find_mount_longest cwd keys p1 k r1 Hc Hks E1) as (Hin & Hc1 & Hn1 & Hm1).
+    destruct (find_mount_longest cwd keys p2 k r2 Hc Hks E2) as (_ & Hc2 & Hn2 & Hm2).
+    repeat (split; [first [assumption|reflexivity]|]).
+    intros k' Hin' [Hp|Hp]; [apply Hm1|apply Hm2]; assumption.
+  Qed.
+
+  (* ... and it is refused - nothing is handed to any mount - when either path lies under no mount point or the two
+     paths are served by different mount points. *)
+  Theorem mount_two_refuses cwd keys p1 p2 :
+    mount_two cwd keys p1 p2 = None <->
+    find_mount cwd keys p1 = None \/ find_mount cwd keys p2 = None \/
+    (exists k1 r1 k2 r2, find_mount cwd keys p1 = Some (k1, r1) /\ find_mount cwd keys p2 = Some (k2, r2) /\ k1 <> k2).
+  Proof.
+    unfold mount_two.
+    destruct (find_mount cwd keys p1) as [[k1 q1]|]; [|split; [intros _; left; reflexivity|reflexivity]].
+    destruct (find_mount cwd keys p2) as [[k2 q2]|]; [|split; [intros _; right; left; reflexivity|reflexivity]].
+    destruct (str_eqb k1 k2) eqn:Ek.
+    - apply str_eqb_eq in Ek. subst k2. split; [discriminate|].
+      intros [H|[H|(a & b & c & d & Ha & Hb & Hne)]]; try discriminate.
+      inversion Ha; inversion Hb; subst. exfalso; apply Hne; reflexivity.
+    - split; [|reflexivity]. intros _. right. right. exists k1, q1, k2, q2. repeat split; try reflexivity.
+      intros ->. rewrite str_eqb_refl in Ek. discriminate.
+  Qed.
+
   (* mount, then the mount's rooted filesystem: the host path lies under that filesystem's base and
      continues with exactly the path's components below the mount point *)
   Theorem mount_then_local cwd keys path k rel base q :
